@@ -16,7 +16,7 @@ EXPLANATION = 'generic merge_columns theorem + proof that the literal loop of __
 
 
 def scenarios(seed, tier):
-    n = 160 if tier == 'quick' else 1800
+    n = 320 if tier == 'quick' else 1920
     return PE.cases(seed, n)
 
 
